@@ -28,6 +28,8 @@ IDIOMS = [
     "5 percent * 10 percent", "1 dozen * 3", "2 rad * 3 m", "90 deg / (2 s)", "7 kcal / (2 min)", "3 m^2 / (2 m)",
     "9 m^3 / (3 m^2)", "1 kWh / (1 kW)", "5 Pa * 2 m^3", "10 kg m^2 / s^2", "10 kg m^2 / s^3", "3 A * 4 ohm",
     "2 mm * 1 km", "5 m / (10 km)", "3 g / (6 kg)", "1 inch / (1 cm)", "2 ft * 3 in",
+    # dedicated witness of known finding F14 (keeps the entry honest: it must keep reproducing)
+    "7 * (gauss) / (340.85 * (tablespoons^3 * planck_length))",
 ]
 
 
@@ -51,6 +53,25 @@ def gen_expr(rng, pool):
         c = random_uexpr(rng, pool, nfactors=1)
         e = f"{e} {rng.choice(['*', '/'])} ({plit(random_magnitude(rng, allow_zero=False))} * ({c.text}))"
     return e, a
+
+
+def out_of_double_range(db, disp_unit, raw):
+    """F14 predicate: expressing the raw quantity in the unit the simplifier chose needs a number
+    (the unit's factor to base units, the raw unit's factor, the base-unit value, or the magnitude in
+    the chosen unit) outside the comfortable range of doubles"""
+    lo, hi = to_dec("1e-300"), to_dec("1e300")
+    try:
+        fd = abs(to_dec(db.sunit_factor(disp_unit)))
+        fr = abs(to_dec(db.sunit_factor(raw["unit"])))
+        base = abs(to_dec(db.base_value(raw)))
+        mag = base / fd
+    except ArithmeticError:
+        return True
+    return any(not (lo < v < hi) for v in (fd, fr, base, mag))
+
+
+def EXPECTED_KNOWN(tier):
+    return ["F14"]
 
 
 def read_back(es, text):
@@ -106,6 +127,10 @@ def check_expr(sh, w, es, db, E, conv_target=None):
         if not (dx == 0 and not d["unit"]) and db.sunit_dim(d["unit"]) != raw_dim and finite and x != 0:
             probs.append(f"displayed result {d['text']!r} has dimension {dim_text(db.sunit_dim(d['unit']))}, raw value "
                          f"{raw['text']!r} has {dim_text(raw_dim)}")
+        elif finite and not rel_close(db.base_value(d), raw_base) and out_of_double_range(db, d["unit"], raw):
+            # F14: the simplifier chose a unit whose conversion factor does not fit a double
+            sh.known_hit("F14", dict(case, raw=raw["text"], displayed=d["text"]))
+            return
         elif finite and not rel_close(db.base_value(d), raw_base):
             probs.append(f"displayed result {d['text']!r} = {float(db.base_value(d))!r} (base units) but the raw value "
                          f"{raw['text']!r} = {float(raw_base)!r}")
